@@ -52,27 +52,24 @@ def rule_dispatch(program, ctx):
     if loop is None or not isinstance(loop.target, ast.Tuple):
         raise AnalysisError("compile_match_from_query: dispatch loop not found")
     kname, vname = [e.id for e in loop.target.elts]
-    branches = []
-    node = loop.body[0] if loop.body and isinstance(loop.body[0], ast.If) else None
-    while node is not None:
-        branches.append(node)
-        node = node.orelse[0] if len(node.orelse) == 1 and isinstance(node.orelse[0], ast.If) else None
+    from ..lib import guard_atoms
+
+    branches = [b for b in ast.walk(loop) if isinstance(b, ast.If)]
     for lit, app in sorted(emitted.items()):
         owner = None
         for b in branches:
-            for cmpn in ast.walk(b.test):
-                if isinstance(cmpn, ast.Compare) and dotted(cmpn.left) == kname and isinstance(cmpn.comparators[0], ast.Constant) and cmpn.comparators[0].value == lit:
+            parts = b.test.values if isinstance(b.test, ast.BoolOp) and isinstance(b.test.op, ast.And) else [b.test]
+            for cmpn in parts:
+                if isinstance(cmpn, ast.Compare) and len(cmpn.ops) == 1 and isinstance(cmpn.ops[0], ast.Eq) and dotted(cmpn.left) == kname and isinstance(cmpn.comparators[0], ast.Constant) and cmpn.comparators[0].value == lit:
                     owner = b
             if owner:
                 break
         if owner is None:
             ctx.bad(finding_at(P, rid, app, f"the planner emits key \"{lit}\" but no residual branch owns it: it is compiled as a tag condition named \"{lit}\"", text=lit))
             continue
-        extra = []
-        if isinstance(owner.test, ast.BoolOp) and isinstance(owner.test.op, ast.And):
-            extra = [v for v in owner.test.values if any(isinstance(n, ast.Name) and n.id == vname for n in ast.walk(v))]
-        elif not isinstance(owner.test, ast.Compare):
-            extra = [owner.test] if any(isinstance(n, ast.Name) and n.id == vname for n in ast.walk(owner.test)) else []
+        # conditions under which the owner's body runs, beyond the key test itself
+        atoms = guard_atoms(owner.body[0], stop=loop)
+        extra = [e for e, pol in atoms if any(isinstance(n, ast.Name) and n.id == vname for n in ast.walk(e))]
         if extra:
             ctx.bad(finding_at(P, rid, owner, f"branch for \"{lit}\" also requires `{ast.unparse(extra[0])}`: the legal value 0 (the planner emits it whenever the bound `is not None`) "
                                f"falls into the catch-all tag branch, the residual then demands a tag named \"{lit}\" and the filter returns nothing", text=lit))
@@ -102,6 +99,8 @@ def rule_presence(program, ctx):
 
 
 def rule_authors(program, ctx):
+    from ..lib import expand_aliases
+
     rid = ctx.rule(
         "C02.authors",
         "sibling agreement of the authors clause: SQL skeleton, generated LMDB clause and in-memory check_event either all consult the "
@@ -119,7 +118,7 @@ def rule_authors(program, ctx):
         found = False
         anchor = fn
         for n in ast.walk(fn):
-            if isinstance(n, ast.If) and "authors" in ast.unparse(n.test):
+            if isinstance(n, ast.If) and "authors" in ast.unparse(expand_aliases(fn, n.test)):
                 anchor = n
                 txt = " ".join(str(k.value) for s in n.body for k in ast.walk(s) if isinstance(k, ast.Constant) and isinstance(k.value, str))
                 if "delegation" in txt:
